@@ -162,3 +162,24 @@ Theorem C04_canon_float : forall sg t,
   in_lang (LFloat sg) t = true -> ascii t = true -> canon (CFloat sg) (VFloat t) t.
 Proof. exact canon_float. Qed.
 Print Assumptions C04_canon_float.
+
+(* C04_match_then_build without the float exclusion (no_raw: the values handed to the builder are ordinary values;
+   a float variable then comes back as float(t) and is read through the contract as the float whose str() is t) *)
+Theorem C04_match_then_build_floats : forall m r vals ts caps vs tts restP tcaps tvs meth ws,
+  map_distinct m -> In r (m_rules m) ->
+  segs_built (r_defaults r) vals (r_segs r) ts caps vs ->
+  tail_built (r_defaults r) vals (is_branch r) (r_tail r) tts restP tcaps tvs ->
+  NoDup (flat_map seg_names (r_segs r) ++ match r_tail r with Some n => [n] | None => [] end) ->
+  no_raw vals -> rmethod_ok r meth = true -> r_websocket r = ws ->
+  exists path,
+    build_rule r vals = BOk ([], path)
+    /\ matcher_run m (trie_of m) [] (path_part (unquote path)) meth ws = MOk rule (list (str * value)) r (vs ++ tvs)
+    /\ build_rule r (unraw_all (vs ++ tvs)) = BOk ([], path).
+Proof. exact match_then_build_floats. Qed.
+Print Assumptions C04_match_then_build_floats.
+
+(* Observed, and outside the domain of C04: converter arguments in a rule string cannot be negative
+   (Rule('/<int(min=-10):p>') -> ValueError "Cannot parse converter argument 'min=-'" when the map is constructed:
+   _converter_args_re has no sign).  It fails at construction time, not on a request; C04 quantifies over values
+   (signed ints are in its domain and are proved / exercised: C04_int_roundtrip, C04_int_example), not over the
+   argument syntax of converters.  IntegerConverter(map, min=-10, signed=True) built from Python works. *)
